@@ -1,5 +1,5 @@
 """Texts for MANIFEST.json (per-property texts live in tools/props/Cnn.json under "manifest")."""
 from propconf import PROPS
-HOOK_COMMITS = ["394d8ea", "fe7c755", "5d523e8"]
+HOOK_COMMITS = ["394d8ea", "fe7c755", "5d523e8", "82876ac"]
 NOT_APPLICABLE = {}
 META = {k: v["manifest"] for k, v in PROPS.items() if "manifest" in v}
